@@ -618,6 +618,12 @@ func innerWildcardLane(c *ev.Ctx, seed int64) {
 		keys = append(keys, "plain"+lit+"tail", "none"+lit[:len(lit)-1]+"x")
 		worlds = append(worlds, world{"*" + lit + "*", keys})
 	}
+	// '?' stands for exactly one CHARACTER of the key, however many bytes its encoding has
+	worlds = append(worlds,
+		world{"private/report-?", []string{"private/report-a", "private/report-\u00e9", "private/report-\u65e5", "private/report-ab", "private/report-", "private/report-\u00e9\u00e9"}},
+		world{"?/x", []string{"a/x", "\u00e9/x", "ab/x", "\U0001F600/x"}},
+		world{"d/??.txt", []string{"d/\u00e9a.txt", "d/a\u00e9.txt", "d/\u00e9.txt", "d/abc.txt", "d/\u65e5\u672c.txt"}},
+	)
 	for wi, w := range worlds {
 		pol := fmt.Sprintf(`{"Version":"2012-10-17","Statement":[{"Effect":"Allow","Principal":{"AWS":["alice"]},"Action":"s3:*","Resource":["arn:aws:s3:::%s","arn:aws:s3:::%s/*"]},{"Effect":"Deny","Principal":{"AWS":["alice"]},"Action":["s3:GetObject","s3:DeleteObject"],"Resource":"arn:aws:s3:::%s/%s"}]}`, b, b, b, w.pattern)
 		if pr := root.Sub("PUT", b, "", "policy=", []byte(pol)); !pr.OK() {
